@@ -27,7 +27,7 @@ PROFILES: dict[str, dict[str, Any]] = {
     "C05": dict(weights={"scope": 16, "cancel": 12, "ncancel": 6, "uncancel": 3, "catchall": 4, "group": 6,
                          "spawn": 8, "hcancel": 6, "deadline": 4, "raise": 2, "sleep": 8}, max_len=6),
     "C06": dict(weights={"scope": 16, "deadline": 10, "sleep": 14, "effdl": 6, "cancel": 4, "shield": 3,
-                         "raise": 1, "group": 4, "spawn": 5, "failafter": 10}, max_len=6),
+                         "raise": 1, "group": 4, "spawn": 5, "failafter": 10, "dldance": 8}, max_len=6),
     "C07": dict(weights={"start": 16, "started": 12, "group": 10, "cancel": 10, "raise": 6, "spawn": 6,
                          "finally": 5, "hcancel": 3, "sleep": 6}, max_len=5),
 }
@@ -67,7 +67,34 @@ def nontrivial(prop: str, run: KRun) -> bool:
     return False
 
 
-def run_programs(prop: str, programs: list[dict], res: Result, *, eager_every: int = 0) -> None:
+def run_uvloop(prop: str, programs: list[dict], res: Result, ctx: Ctx | None = None) -> None:
+    """The same programs on a real uvloop (C tasks, libuv timers; real time, so no handle tracing and
+    no model replay): the history is judged by the oracle of `prop`.  Deadline values (C06) are not
+    comparable on a real clock and are skipped.  A verdict counts only if it repeats on two reruns."""
+    from .kernel import KRunUV
+
+    st = res.stats.setdefault("uvloop", {"programs": 0, "abandoned": 0, "unrepeatable": 0})
+    for prog in programs:
+        if ctx is not None and ctx.time_left() < 5:
+            break
+        r = KRunUV(prog).run()
+        st["programs"] += 1
+        if r.deadlock:
+            st["abandoned"] += 1
+            continue
+        res.evaluations += 1
+        what = analyze(r)[prop][:1]
+        if not what:
+            continue
+        again = [KRunUV(prog).run() for _ in range(2)]
+        if all((not a.deadlock) and analyze(a)[prop] for a in again):
+            sig = f"{prop}:uvloop:" + what[0].split(":")[0][:60].rstrip("0123456789 ")
+            res.violations.append(Violation({"uvloop": prog}, "on uvloop: " + what[0], sig))
+        else:
+            st["unrepeatable"] += 1
+
+
+def run_programs(prop: str, programs: list[dict], res: Result, *, eager_every: int = 0) -> list[dict]:
     runs = []
     for i, prog in enumerate(programs):
         try:
@@ -77,7 +104,7 @@ def run_programs(prop: str, programs: list[dict], res: Result, *, eager_every: i
             continue
         runs.append((prog, r))
     if not runs:
-        return
+        return []
     replies = run_model("kernel", [l[0] for _, r in runs for l in r.lines])
     pos = 0
     st = res.stats.setdefault("events", {})
@@ -108,6 +135,7 @@ def run_programs(prop: str, programs: list[dict], res: Result, *, eager_every: i
             if len(res.samples) < 3:
                 res.samples.append({"program": prog,
                                     "trace_head": [f"{a} -> {b}" for a, b in r.lines[:16]]})
+    return [prog for prog, r in runs if not r.deadlock and nontrivial(prop, r)]
 
 
 def run(prop: str, ctx: Ctx, quick: int = 1500, thorough: int = 25000) -> Result:
@@ -124,12 +152,18 @@ def run(prop: str, ctx: Ctx, quick: int = 1500, thorough: int = 25000) -> Result
     # a fraction with the default profile keeps every property exposed to the full vocabulary
     for _ in range(n // 5):
         progs.append(gen_program(ctx.rng))
+    finished: list[dict] = []
     for i in range(0, len(progs), 200):
-        run_programs(prop, progs[i: i + 200], res, eager_every=4)
+        finished += run_programs(prop, progs[i: i + 200], res, eager_every=4)
         if ctx.time_left() < 0:
             break
+    if prop != "C06" and not res.violations:
+        # the non-trivial programs that terminate, again on uvloop (oracle only)
+        ctx.rng.shuffle(finished)
+        run_uvloop(prop, finished[: ctx.n(60, 2500)], res, ctx)
     # minimise the first failing case of each kind so that the replay file is readable
-    if res.violations and res.violations[0].signature != "harness-error":
+    if (res.violations and res.violations[0].signature != "harness-error"
+            and "uvloop" not in res.violations[0].case):
         v = res.violations[0]
         small = shrink(prop, v.case, lambda q: _fails_oracle(prop, q))
         if small != v.case:
@@ -219,6 +253,8 @@ def replay(prop: str, ctx: Ctx, case: Any) -> Result:
         from .c14 import check_cancelled_matrix
 
         check_cancelled_matrix(res, only=case["check_cancelled"], tag=prop)
+    elif "uvloop" in case:
+        run_uvloop(prop, [case["uvloop"]], res)
     else:
         run_programs(prop, [case], res)
     return res
